@@ -1,5 +1,5 @@
 SPECIFICATION Spec
-CONSTANTS LeafVals = {2, 3}
+CONSTANTS LeafVals = {0, 3}
  RhsVals = {0}
  FullEq = FALSE
  Guarded = TRUE
